@@ -215,3 +215,125 @@ func init() {
 		},
 	})
 }
+
+// worklistLoops: loops of fn that pop from and push to the same container/list.List.
+type worklist struct {
+	header *ssa.BasicBlock
+	pushes []ssa.CallInstruction
+}
+
+func worklistLoops(fn *ssa.Function) []worklist {
+	var pops, pushes []ssa.CallInstruction
+	eachCall(fn, func(c ssa.CallInstruction) {
+		f := calleeFunc(c)
+		if f == nil {
+			return
+		}
+		switch f.FullName() {
+		case "(*container/list.List).Remove":
+			pops = append(pops, c)
+		case "(*container/list.List).PushBack":
+			pushes = append(pushes, c)
+		}
+	})
+	byHeader := map[*ssa.BasicBlock]*worklist{}
+	for _, pop := range pops {
+		h := loopHeaderOf(pop.Block())
+		if h == nil {
+			continue
+		}
+		body := loopBody(h)
+		for _, push := range pushes {
+			if body[push.Block()] && sameObject(push.Common().Args[0], pop.Common().Args[0]) {
+				w := byHeader[h]
+				if w == nil {
+					w = &worklist{header: h}
+					byHeader[h] = w
+				}
+				w.pushes = append(w.pushes, push)
+			}
+		}
+	}
+	var out []worklist
+	for _, w := range byHeader {
+		out = append(out, *w)
+	}
+	return out
+}
+
+func init() {
+	register(&Rule{
+		ID: "C08-d", Template: "worklist discipline (test-and-mark before expansion)",
+		Doc: "Negotiation terminates in time polynomial in the history size only if a graph walk expands each commit once: in pkg/api/utils every worklist loop (pop from and push to the same list) pushes a node's successors only behind the not-found edge of a membership test on a set that is marked, with the same key, before the push in the same iteration. Testing one key and marking another (or not marking inside the walk at all) re-expands a commit once per path — exponential on stacked fork/merge histories.",
+		Min: 2,
+		Run: func(p *Program, r *RuleResult) error {
+			if _, err := p.Func("pkg/api/utils.(*ClosedSetsFinder).Process"); err != nil {
+				return err
+			}
+			fns := p.FuncsInPkg("pkg/api/utils")
+			r.Analysed = len(fns)
+			for _, fn := range fns {
+				for wi, w := range worklistLoops(fn) {
+					body := loopBody(w.header)
+					exits := loopExitEdges(w.header)
+					type pair struct {
+						lk *ssa.Lookup
+						mu *ssa.MapUpdate
+					}
+					var pairs []pair
+					for b := range body {
+						for _, in := range b.Instrs {
+							lk, ok := in.(*ssa.Lookup)
+							if !ok || !lk.CommaOk {
+								continue
+							}
+							for b2 := range body {
+								for _, in2 := range b2.Instrs {
+									mu, ok := in2.(*ssa.MapUpdate)
+									if ok && sameObject(mu.Map, lk.X) && sameElem(mu.Key, lk.Index) {
+										pairs = append(pairs, pair{lk, mu})
+									}
+								}
+							}
+						}
+					}
+					for pi, push := range w.pushes {
+						key := fmt.Sprintf("%s|worklist#%d|push#%d", funcName(fn), wi, pi)
+						what := "successors are queued only after the node was tested and marked as visited (same key)"
+						ok := false
+						for _, pr := range pairs {
+							var okv []ssa.Value
+							for _, ref := range *pr.lk.Referrers() {
+								if ex, isEx := ref.(*ssa.Extract); isEx && ex.Index == 1 {
+									okv = append(okv, ex)
+								}
+							}
+							cut := mkCut(boolEdges(fn, forward(okv, fwdOpts{noBinOp: true}), false))
+							for e := range exits {
+								cut[e] = true
+							}
+							if len(w.header.Instrs) == 0 {
+								continue
+							}
+							// (1) the push lies behind the not-found edge
+							if _, reach := reachAfter(fn, w.header.Instrs[0], push, cut, nil); reach {
+								continue
+							}
+							// (2) the mark happens before the push in the iteration
+							if _, reach := reachAfter(fn, w.header.Instrs[0], push, exits, map[ssa.Instruction]bool{pr.mu: true}); reach {
+								continue
+							}
+							ok = true
+						}
+						if ok {
+							r.ok(key, p.Rel(push.Pos()), what)
+						} else {
+							r.bad(key, p.Rel(push.Pos()), what, "no test-and-mark of the expanded node guards this push: the walk expands a commit once per path that reaches it")
+						}
+					}
+				}
+			}
+			return nil
+		},
+	})
+}
